@@ -57,6 +57,28 @@ func (c *Ctx) readPath() map[*ssa.Function]bool {
 		return nil
 	}
 	rp := c.reach([]*ssa.Function{rm}, false, false, false)
+	// function values created on the read path (method values, closures handed to walk helpers) run on it too
+	for changed := true; changed; {
+		changed = false
+		var extra []*ssa.Function
+		for f := range rp {
+			flow.Instrs(f, func(in ssa.Instruction) {
+				if mc, ok := in.(*ssa.MakeClosure); ok {
+					if g := flow.Unwrap(mc.Fn.(*ssa.Function)); g != nil && !rp[g] && c.P.IsLibrary(g) {
+						extra = append(extra, g)
+					}
+				}
+			})
+		}
+		if len(extra) > 0 {
+			for g := range c.reach(extra, false, false, false) {
+				if !rp[g] {
+					rp[g] = true
+					changed = true
+				}
+			}
+		}
+	}
 	for f := range rp {
 		if !c.P.IsLibrary(f) || pkgOf(f).Path() != pkgDiam {
 			delete(rp, f)
